@@ -89,7 +89,7 @@ def funcs_of(fname, src):
 FUNCS_A = funcs_of('mod_a.py', SRC_A.replace('\\t', '\t'))
 FUNCS_B = funcs_of('mod_b.py', SRC_B)
 FUNCS_C = funcs_of('mod_c.py', SRC_C)
-FUNCS_MISSING = [('gone.py', 10, 'vanished', 14), ('relgone.py', 3, 'lost', 6)]       # relgone.py: recorded under a relative name; a file of that name lies on sys.path
+FUNCS_MISSING = [('gone.py', 10, 'vanished', 14), ('relgone.py', 3, 'lost', 6), ('<string>', 1, 'made_by_exec', 4), ('<doctest mod.f[0]>', 1, 'f', 2)]       # relgone.py: recorded under a relative name; a file of that name lies on sys.path
 HITS = [1, 2, 7, 40, 123456789, 999999999, 1000000000, 1234567890123, 10 ** 15]
 TIMES = [0, 1, 37, 999, 12345, 10 ** 6, 987654321, 10 ** 12, 10 ** 15, 10 ** 18]
 UNITS = [1e-9, 1e-6, 1e-7, 1.0]
@@ -97,7 +97,7 @@ OUNITS = [None, 1e-6, 1e-3, 1.0, 1e-9]
 
 
 def make_case(rng):
-    pool = FUNCS_A + FUNCS_B + FUNCS_C + (FUNCS_MISSING if rng.chance(1, 3) else [])
+    pool = FUNCS_A + FUNCS_B + FUNCS_C + (FUNCS_MISSING if rng.chance(1, 3) else [])       # (pseudo file names of exec-made code are missing files too)
     k = rng.below(len(pool)) + 1
     chosen = rng.sample(pool, k)
     stats = []
